@@ -250,6 +250,10 @@ def run_case(case, name):
                         rec["log"].append(["cancel", a[1], bool(was), sim.eventlist().contains(self.created[a[1]])])
                 elif kind == "fail":
                     raise_fault(a[1] if len(a) > 1 else "runtime")
+                elif kind == "setstrat":     # the model changes the error strategy while the run is going on
+                    sim.set_error_strategy({"log": ErrorStrategy.LOG_AND_CONTINUE, "warn": ErrorStrategy.WARN_AND_CONTINUE,
+                                            "pause": ErrorStrategy.WARN_AND_PAUSE}[a[1]])
+                    rec["log"].append(["setstrat", a[1], to_q(sim.simulator_time)])
                 elif kind == "cmd":
                     r = issue(a[1])
                     rec["outs"].append({"ok": "cmdok", "refused": "cmdref"}.get(r, r))
